@@ -43,12 +43,15 @@ class Shards:
             self.meta[cid] = {"prog": prog, "case": case, "tag": tag}
         return len(self.cases)          # 1-based index within the current shard
 
-    def session(self, clause, idxs, tag=None):
-        "a property predicate over several calls of the current shard (indices returned by add)"
+    def session(self, clause, idxs, tag=None, x=None):
+        "a property predicate over several calls of the current shard (indices returned by add); x: extra recorded data"
         self.n += 1
         sid = "%s-S%d" % (self.prefix, self.n)
-        self.sessions.append({"id": sid, "clause": clause, "cs": list(idxs)})
-        self.meta[sid] = {"clause": clause, "calls": [self.cases[i - 1]["id"] for i in idxs], "tag": tag}
+        rec = {"id": sid, "clause": clause, "cs": list(idxs)}
+        if x is not None:
+            rec["x"] = x
+        self.sessions.append(rec)
+        self.meta[sid] = {"clause": clause, "calls": [self.cases[i - 1]["id"] for i in idxs], "tag": tag, "x": x}
         return sid
 
     def maybe_flush(self):
